@@ -2,7 +2,7 @@
 
 use crate::adapter::{Config, STD};
 use crate::engine::{Ctx, Input, Line, Rec, Verdict};
-use crate::gen::sentence::{message_chars, wellformed_spec};
+use crate::gen::sentence::{inorder_group_history, message_chars, wellformed_spec};
 use crate::gen::payload::LenMode;
 use crate::outcome::Outcome;
 use crate::props::hist::{gate, Gate};
@@ -91,9 +91,9 @@ pub fn run(ctx: &mut Ctx) {
     for v in 0..64u8 {
         let c = armor::armor_char(v);
         // a decodable payload of that type if the type is supported, else filler
-        let mut bytes = vec![0u8; 60];
-        bytes[0] = v << 2;
-        bytes[4] = 0x40; // type 24: part B would need 21 bytes; keep part A (bits 38..39 = 0)
+        let mut bytes: Vec<u8> = (0..60u32).map(|i| (i * 37 + v as u32 * 11 + 5) as u8).collect();
+        bytes[0] = (v << 2) | (bytes[0] & 3);
+        bytes[4] &= 0xfc; // type 24: keep part A (bits 38..39 = 0)
         let len = crate::refmodel::layout::standard_lengths(v).last().copied().unwrap_or(21).min(60);
         let (chars, fill) = armor::armor_bytes(&bytes[..len]);
         assert_eq!(chars[0], c);
@@ -127,4 +127,6 @@ pub fn run(ctx: &mut Ctx) {
         Input::History { lines: vec![Line::new(s.render(), decode)] }
     });
     ctx.run_proptest("generated-sentences", &STD, n, strat, check);
+    // continuation fragments and completed groups: the type reported on each is that sentence's own
+    ctx.run_proptest("fragment-groups", &STD, n / 2, inorder_group_history(), check);
 }
